@@ -1,6 +1,7 @@
 """Shared driver for the live-decoder family C04 / C06 / C14 (see DESIGN section 4)."""
 import json
 import os
+import subprocess
 from vlib.engine import Failure, Machinery, parse_dot
 
 
@@ -100,8 +101,15 @@ def graph(ctx, cfgname="MC_LiveG.cfg"):
 def walk(ctx, gp, lvl, depth, budget, judge, mode="model"):
     vh = ctx.build()
     o = os.path.join(ctx.sub("walk"), "walk.json")
-    ctx.run([vh, "live-walk", "-graph", gp, "-depth", str(depth), "-lvl", lvl, "-out", o, "-budget", str(budget),
-             "-seed", str(ctx.seed), "-mode", mode], timeout=7200)
+    try:
+        ctx.run([vh, "live-walk", "-graph", gp, "-depth", str(depth), "-lvl", lvl, "-out", o, "-budget", str(budget),
+                 "-seed", str(ctx.seed), "-mode", mode], timeout=300 if ctx.quick else 5400)
+    except subprocess.TimeoutExpired:
+        # (the walk has no per-call watchdog: a call of the real decoder that never returns ends here; the sessions, which
+        # have one, report it -- see finish())
+        ctx.log("walk lvl=%s mode=%s did not finish in time" % (lvl, mode))
+        ctx.timed_out = getattr(ctx, "timed_out", []) + ["walk"]
+        return {"sequences": 0, "steps": 0, "mismatches": []}, []
     res = json.load(open(o))
     ctx.log("walk lvl=%s mode=%s depth=%d: %d sequences, %d steps, %d mismatches" % (lvl, mode, depth, res["sequences"], res["steps"], len(res["mismatches"])))
     ctx.cov["traces_validated_against_impl"] += res["sequences"]
@@ -126,7 +134,12 @@ def closure(ctx, gp, judge="model"):
     """product of the real byte reader (verif hook: snapshot + clone) and the model's state graph, explored to closure"""
     vh = ctx.build()
     o = os.path.join(ctx.sub("closure"), "closure.json")
-    ctx.run([vh, "live-closure", "-graph", gp, "-out", o], timeout=3600)
+    try:
+        ctx.run([vh, "live-closure", "-graph", gp, "-out", o], timeout=300 if ctx.quick else 3600)
+    except subprocess.TimeoutExpired:
+        ctx.log("closure exploration did not finish in time")
+        ctx.timed_out = getattr(ctx, "timed_out", []) + ["closure"]
+        return []
     res = json.load(open(o))
     ctx.log("closure (driver level): %d (reader state, model state) pairs over %d model states, %d steps, closed=%s, %d mismatches"
             % (res["pairs"], res["model_nodes"], res["steps"], res["closed"], len(res["mismatches"])))
@@ -156,3 +169,9 @@ def replay(ctx, payload):
         ok, new = rerun(ctx, payload["payload"]["session"])
     print(json.dumps({"reexecuted": new})[:3000])
     return ok
+
+
+def finish(ctx):
+    """after ctx.report: a graph walk that did not finish is only acceptable if the sessions explained it with a violation"""
+    if getattr(ctx, "timed_out", None) and not ctx.violations:
+        raise Machinery("%s did not finish in time and no session shows why" % ", ".join(ctx.timed_out))
